@@ -46,6 +46,10 @@ CLAIMED = {
          "Exploration: circle-circle intersections in every relative position (separate, externally/internally tangent, crossing, nested, concentric, equal radii, identical), intersection intervals, circle-segment and curve-circle intersections, tangent points from external points at d/r from 1+1e-6 to 1e3, outer tangent segments, arcs by angles and through three points (start/end/sweep sign/length/fraction), and the cached bounding boxes of circles and arcs against dense samples and an independent box.",
          "Tangent configurations are built on dyadic, axis-aligned coordinates so that they are exact; non-constructed cases stay >= 1e-6 r away from tangency; on-object tolerance 1e-9*scale. The private line-circle primitive is observed through the public segment intersection. Known finding: reversed left/right order of outer tangents for equal radii (cannot be repaired without editing an existing unit test).",
          "3 / C11"),
+ "C17": ("runtime monitor: structural invariant after every constructor/derivation plus a piecewise-linear reference model",
+         "Exploration: DiscreteDomain::linear / linear_space with bounds in both orders, TryFrom<Vec>, push histories against a Vec model, index_of/bounds; Series1 interpolate (knots, +-ulp, outside), between/in_interval with bounds inside the domain (exact ends, same function), split_at_x (areas add up, pieces meet at x), resampled_n/resampled_x (ends kept, on the graph), y_crossings (on level, every sign change represented), and chains of up to 6 derived operations with the structural invariant (finite ascending abscissae, matching ordinates) judged after every step.",
+         "Slices are requested inside the domain; levels equal to a flat segment are not generated; a loud panic on a degenerate (< 2 knots) series is not counted as a silently invalid object. Known finding: linear_space with start > end returns a descending domain.",
+         "3 / C17"),
  "C18": ("runtime monitor: modular-arithmetic and set-definition oracles on an ulp-lattice of special angles and bounds plus uniform samples",
          "Exploration: angle_signed_pi / angle_to_2pi / signed_compliment_2pi / angle_in_direction / signed_angle / directed_angle on the lattice {k*pi/2, +-1e6, +-1e-300, +-0} with one ulp either side and uniform angles to +-1e6, vector pairs incl. equal, opposite, perpendicular, tiny and huge; AngleInterval membership, negative extents, full turns, intersects and at_fraction against an arc-overlap oracle; Interval construction (NaN rejection), contains, contains_interval, overlaps, intersection, clamp, length against set definitions incl. equal and infinite bounds.",
          "Same-direction tolerance 1e-9; AngleInterval membership not judged within 1e-9 of either end (library ANGLE_TOL 1e-12).",
